@@ -24,12 +24,13 @@ import (
 // ---- C20: shellcheck/pyflakes integration loses nothing and bounds concurrency ------------------------
 
 type c20Step struct {
-	ID    string   `json:"id"`
-	Shell string   `json:"shell"` // "" = not given at step level
-	Lines []string `json:"lines"` // script lines (the marker line is added by render)
-	Plan  string   `json:"plan"`
-	N     int      `json:"n"`
-	LatMS int      `json:"lat_ms"`
+	ID     string   `json:"id"`
+	Shell  string   `json:"shell"` // "" = not given at step level
+	Lines  []string `json:"lines"` // script lines (the marker line is added by render)
+	Plan   string   `json:"plan"`
+	N      int      `json:"n"`
+	LatMS  int      `json:"lat_ms"`
+	Inline bool     `json:"inline,omitempty"` // a one-line quoted script that starts with a placeholder and ends with "}}"
 }
 
 type c20Job struct {
@@ -182,14 +183,21 @@ func (c *c20Case) render() (files map[string]string, expects []c20Expect) {
 				s := &j.Steps[si]
 				marker := fmt.Sprintf("# MARK id=%s plan=%s n=%d lat=%d", s.ID, s.Plan, s.N, s.LatMS)
 				lines := append([]string{marker}, s.Lines...)
-				runLine := y.ln("      - run: |")
-				for _, l := range lines {
-					y.ln("          %s", l)
+				var runLine int
+				script := strings.Join(lines, "\n") + "\n"
+				if s.Inline {
+					// "${{ x }} # MARK ... ${A:-${B}}": starts like a placeholder, ends with }}
+					script = "${{ github.sha }} " + marker + " ${A:-${B}}"
+					runLine = y.ln("      - run: '%s'", script)
+				} else {
+					runLine = y.ln("      - run: |")
+					for _, l := range lines {
+						y.ln("          %s", l)
+					}
 				}
 				if s.Shell != "" {
 					y.ln("        shell: %s", s.Shell)
 				}
-				script := strings.Join(lines, "\n") + "\n"
 				tool, sh := toolFor(effectiveShell(f, j, s))
 				if tool == "" {
 					continue
@@ -573,7 +581,7 @@ func TestC20(t *testing.T) {
 				for ji := 0; ji < rapid.IntRange(1, 4).Draw(rt, "njobs"); ji++ {
 					j := c20Job{Shell: rapid.SampledFrom(shells).Draw(rt, "jshell"), Workdir: rapid.SampledFrom([]int{0, 0, 1, 2}).Draw(rt, "jworkdir"), Windows: rapid.IntRange(0, 4).Draw(rt, "win") == 0, RunsOn: rapid.SampledFrom([]int{0, 0, 0, 1, 2, 3, 4}).Draw(rt, "runsonform")}
 					for si := 0; si < rapid.IntRange(0, 6).Draw(rt, "nsteps"); si++ {
-						s := c20Step{ID: fmt.Sprintf("s%d", id), Shell: rapid.SampledFrom(shells).Draw(rt, "sshell"), Plan: "ok"}
+						s := c20Step{ID: fmt.Sprintf("s%d", id), Shell: rapid.SampledFrom(shells).Draw(rt, "sshell"), Plan: "ok", Inline: rapid.IntRange(0, 5).Draw(rt, "inline") == 0}
 						id++
 						for k := 0; k < rapid.IntRange(1, 4).Draw(rt, "nlines"); k++ {
 							s.Lines = append(s.Lines, rapid.SampledFrom([]string{"echo hello", "echo ${{ github.sha }}", "x=${{ matrix.os }}; echo \"$x ${{ github.event.inputs.name }}\"", "if ${{ contains(github.ref, 'x') }}; then echo y; fi", "echo ${{ unterminated", "print('${{ github.actor }}')", "make test", "echo ${{ a }}${{ b }}", "echo '}}' ${{ 'a}}b' }}"}).Draw(rt, "line"))
